@@ -40,12 +40,17 @@ type c06DocVersion struct {
 	keys    map[string]crypto.PublicKey // kid -> key listed by this version of the document
 	sources map[hash.SHA256Hash]bool    // transactions that produced this version; nil = harness shortcut for documents without
 	// a modelled history (G-DAG history, fuzz fixture): matches every source-transaction query
+	deactivated bool // no controller and no capabilityInvocation (it may still list verification methods): authorises nothing
 }
 
 type c06Resolver struct {
 	mu    sync.Mutex
 	docs  map[string][]c06DocVersion // DID -> versions, oldest first
 	shape *vdKeyResolver             // kids of the G-DAG history
+	// real: when set, documents are SERVED by this resolver (the real did:nuts store, fed through feed with every version the
+	// generator publishes, as the ambassador would); the records above remain the ground truth of the oracle.
+	real resolver.DIDResolver
+	feed func(didStr string, keys map[string]crypto.PublicKey, deactivated bool, source hash.SHA256Hash) error
 }
 
 func c06DIDOf(kid string) string { return strings.SplitN(kid, "#", 2)[0] }
@@ -65,14 +70,18 @@ func (r *c06Resolver) register(kid string, pub crypto.PublicKey, asOf ...hash.SH
 }
 
 // addVersion appends a version of a document: the keys it lists and the transaction that published it.
-func (r *c06Resolver) addVersion(didStr string, keys map[string]crypto.PublicKey, source hash.SHA256Hash) {
-	v := c06DocVersion{keys: map[string]crypto.PublicKey{}, sources: map[hash.SHA256Hash]bool{source: true}}
+func (r *c06Resolver) addVersion(didStr string, keys map[string]crypto.PublicKey, source hash.SHA256Hash, deactivated bool) error {
+	v := c06DocVersion{keys: map[string]crypto.PublicKey{}, sources: map[hash.SHA256Hash]bool{source: true}, deactivated: deactivated}
 	for k, p := range keys {
 		v.keys[k] = p
 	}
 	r.mu.Lock()
 	r.docs[didStr] = append(r.docs[didStr], v)
 	r.mu.Unlock()
+	if r.feed != nil {
+		return r.feed(didStr, keys, deactivated, source)
+	}
+	return nil
 }
 
 func (r *c06Resolver) versions(didStr string) []c06DocVersion {
@@ -91,6 +100,9 @@ func (r *c06Resolver) versions(didStr string) []c06DocVersion {
 // Resolve implements resolver.DIDResolver the way the did:nuts store does: a SourceTransaction selects the version that
 // transaction produced (ErrNotFound if none), otherwise the latest version is returned.
 func (r *c06Resolver) Resolve(id did.DID, md *resolver.ResolveMetadata) (*did.Document, *resolver.DocumentMetadata, error) {
+	if r.real != nil {
+		return r.real.Resolve(id, md)
+	}
 	vs := r.versions(id.String())
 	if len(vs) == 0 {
 		return nil, nil, resolver.ErrNotFound
@@ -99,6 +111,9 @@ func (r *c06Resolver) Resolve(id did.DID, md *resolver.ResolveMetadata) (*did.Do
 	if md != nil && md.SourceTransaction != nil {
 		pick = -1
 		for i := len(vs) - 1; i >= 0; i-- {
+			if vs[i].deactivated && !md.AllowDeactivated {
+				continue // as the did:nuts store: a deactivated version matches no request unless explicitly allowed
+			}
 			if vs[i].sources == nil || vs[i].sources[*md.SourceTransaction] {
 				pick = i
 				break
@@ -141,6 +156,9 @@ func (r *c06Resolver) vouched(kid string, prevs []hash.SHA256Hash) (pub crypto.P
 			continue
 		}
 		known = true
+		if v.deactivated {
+			continue // a deactivated version authorises nothing, whatever it still lists
+		}
 		if v.sources == nil {
 			return k, true, true
 		}
@@ -161,8 +179,8 @@ func (r *c06Resolver) resolvable(kid string, prevs []hash.SHA256Hash) bool {
 		return false
 	}
 	for _, v := range r.versions(c06DIDOf(kid)) {
-		if _, lists := v.keys[kid]; lists || v.sources == nil {
-			continue
+		if _, lists := v.keys[kid]; lists || v.sources == nil || v.deactivated {
+			continue // a deactivated version is simply not found (ErrNotFound): the resolver moves on to the next prev
 		}
 		for _, p := range prevs {
 			if v.sources[p] {
@@ -246,6 +264,7 @@ type c06Fix struct {
 	ovPrevs []hash.SHA256Hash // overrides for base(): exact prevs, signing key, kid of a document with a history
 	ovKey   *c06Key
 	ovKid   string
+	nbuilt  int
 	last    c06Dump
 	ntfs    []Notifier
 	offers  int
